@@ -114,17 +114,25 @@ def monitor(case, out):
         if i < start - 1:
             continue
         d, per = deficit(tr, live)
-        if prev is not None and d > prev:
-            return {"step": i, "why": "the deficit grew from %d to %d without any local write" % (prev, d), "sig": "regress"}
-        prev = d
+        # per ordered pair (observer, owner): what the observer still misses never grows. (A pair may APPEAR: a node
+        # that left is counted from the moment the observer first hears of it - from a peer that does not know yet
+        # that it left - so the total may go up without anything being lost.)
+        if prev is not None:
+            worse = sorted(k for k in per if k in prev and per[k] > prev[k])
+            if worse:
+                k = worse[0]
+                return {"step": i, "why": "what %s misses of %s grew from %d to %d versions without any local write"
+                                          % (bytes.fromhex(k[0]).decode("latin-1"), bytes.fromhex(k[1]).decode("latin-1"), prev[k], per[k]), "sig": "regress"}
+        prev = per
         if i == start - 1:
-            round_start_d = d
+            round_start_d = per
         if (i + 1) in ends:
-            if d >= round_start_d and (d > 0 or not converged(tr, live)):
+            progressed = any(k not in round_start_d or per[k] < round_start_d[k] for k in per) or any(k not in per for k in round_start_d)
+            if not progressed and (d > 0 or not converged(tr, live)):
                 big = [e for y in live for e in tr.own(y)["entries"] if (len(e["k"]) + len(e["v"])) // 2 + 90 > minmax]
                 return {"step": i, "why": "a full round of loss-free all-pairs exchanges made no progress (deficit %d) although views differ from the owners' states (live nodes, and nodes that left and are known to the observer): %r"
                                           % (d, {k: v for k, v in per.items() if v}), "sig": "G1-oversize" if big else "stuck"}
-            round_start_d = d
+            round_start_d = per
     d, per = deficit(tr, live)
     if d > 0 or not converged(tr, live):
         return {"step": len(case["ops"]) - 1, "why": "not converged after %d rounds (deficit %d still decreasing)" % (len(ends), d), "sig": "slow"}
@@ -158,6 +166,9 @@ def run(ctx):
     outs = run_world(binary, wd, cases)
     kf = {k["sig"]: k for k in known_findings() if k["property"] == ID and k["kind"] == "known"}
     violations, known = [], []
+    # glue probes (monitor only): the code around the modelled handlers - receive loop, peer selection of gossipRound, heartbeat of a completed exchange
+    gv, gcov = glue_probes(ID, binary, wd, rng, quick, which=('burst', 'round', 'heartbeat'))
+    violations += gv
     mon = [(c, f) for c, o in zip(cases, outs) for f in [monitor(c, o)] if f]
     okc = [(c, o) for c, o in zip(cases, outs) if not o.get("panic")]
     dis = correspondence(ID, wd, [c for c, _ in okc], [o for _, o in okc])
@@ -198,6 +209,7 @@ def run(ctx):
                               "convergence_phase_deltas_cut_by_packet_size": ncut, "convergence_phase_deltas_complete": nfull,
                               "disagreements": len(dis), "seed": ctx["seed"]},
            "monitor": {"histories": len(cases), "failures": len(mon), "failures_known": len([1 for _, f in mon if f["sig"] in kf])}}
+    cov["glue_probes"] = gcov
     return {"coverage": cov, "violations": violations, "known": known}
 
 
@@ -205,6 +217,8 @@ def replay(path, wd):
     obj = json.load(open(path))
     case = obj["case"]
     binary = build_harness("pkg/gossip", dirs=["gossip"])
+    if replay_glue(obj, binary, wd):
+        return 0
     out = run_world(binary, wd, [case], tag="replay")[0]
     print(json.dumps({"monitor": monitor(case, out)}, indent=1))
     if not out.get("panic"):
